@@ -36,12 +36,13 @@ import (
 // The executor only observes; all comparing is done by checks/C17.py.
 
 type semOp struct {
-	Op     string `json:"op"` // start | finish | await_starts | await_done | await_any | sleep | drain
+	Op     string `json:"op"` // start | cancel | finish | await_starts | await_done | await_any | sleep | drain
 	I      int    `json:"i"`
 	K      int    `json:"k"`
 	Out    string `json:"out"`    // O | E | P
 	Expect string `json:"expect"` // run | block   (start)
-	Us     int    `json:"us"`     // sleep
+	Us     int    `json:"us"`     // sleep; start with ctx "deadline": the deadline
+	Ctx    string `json:"ctx"`    // start: "" background | cancelled (before the call) | cancel (by a later cancel op) | deadline
 }
 
 type rateCall struct {
@@ -76,7 +77,7 @@ type c17Case struct {
 }
 
 type semEvent struct {
-	E  string `json:"e"`           // E entered Handler (about to), S next started, F next about to finish, D caller got its result
+	E  string `json:"e"`           // E entered Handler (about to), S next started, F next about to finish, D caller got its result, C caller's context cancelled by the script
 	I  int    `json:"i"`           // request
 	O  string `json:"o,omitempty"` // F: O/E/P chosen; D: T timeout error, O/E/P, ? other
 	CR int    `json:"cr"`          // ConcurrentRequests() when the event was logged
@@ -180,7 +181,8 @@ func runSem(c *c17Case, out *json.Encoder) error {
 	client.Use(lim)
 	client.Use(core.IOHandler(scripted))
 
-	caller := func(id int) {
+	cancels := map[int]context.CancelFunc{}
+	caller := func(id int, base context.Context) {
 		cls := "?"
 		msg := ""
 		func() {
@@ -196,7 +198,7 @@ func runSem(c *c17Case, out *json.Encoder) error {
 			}()
 			cc := core.NewClientContext()
 			cc.Items().Set("c17id", id)
-			ctx := core.WithContext(context.Background(), cc)
+			ctx := core.WithContext(base, cc)
 			res, err := client.InvokeContext(ctx, "f", nil)
 			switch {
 			case err == core.ErrTimeout:
@@ -252,11 +254,29 @@ script:
 		switch op.Op {
 		case "start":
 			id := op.I
+			base := context.Background()
+			switch op.Ctx {
+			case "cancelled":
+				cctx, cancel := context.WithCancel(base)
+				cancel()
+				base = cctx
+			case "cancel":
+				cctx, cancel := context.WithCancel(base)
+				cancels[id] = cancel
+				base = cctx
+			case "deadline":
+				cctx, cancel := context.WithTimeout(base, time.Duration(op.Us)*time.Microsecond)
+				cancels[id] = cancel
+				base = cctx
+			}
 			mu.Lock()
 			launched[id] = true
+			if op.Ctx == "cancelled" {
+				logEv("C", id, "")
+			}
 			logEv("E", id, "")
 			mu.Unlock()
-			go caller(id)
+			go caller(id, base)
 			if op.Expect == "run" {
 				if !waitFor(func() bool { _, d := done[id]; return hasS[id] || d }) {
 					stuck(k, fmt.Sprintf("request %d did not get through the limiter", id))
@@ -271,6 +291,13 @@ script:
 				}
 			} else {
 				time.Sleep(time.Duration(2) * time.Millisecond) // let it reach the channel operation
+			}
+		case "cancel":
+			if cancel := cancels[op.I]; cancel != nil {
+				mu.Lock()
+				logEv("C", op.I, "")
+				mu.Unlock()
+				cancel()
 			}
 		case "finish":
 			var id int
@@ -513,6 +540,70 @@ func runFree(c *c17Case, out *json.Encoder) error {
 				}
 			}
 		}
+	case "ntcancel":
+		// limiter WITHOUT timeout, full; a caller queues with a context that is already
+		// cancelled / is cancelled while it is queued / expires while it is queued.  It must stay
+		// queued until a permit is released; whatever it returns, and when, is recorded.
+		for lim.ConcurrentRequests() < c.Max {
+			id := newID()
+			e, m := errClass(lim.Acquire(bg))
+			step(freeStep{Op: "acq", I: id, Err: e, CR: lim.ConcurrentRequests(), Msg: m})
+			if e != "nil" {
+				obs.Stuck = "could not fill the limiter"
+				break
+			}
+			held = append(held, id)
+		}
+		for k := 0; k < c.N && obs.Stuck == "" && len(held) > 0; k++ {
+			var ctx context.Context
+			var cancel context.CancelFunc
+			switch k % 3 {
+			case 0:
+				ctx, cancel = cancelled, func() {}
+			case 1:
+				ctx, cancel = context.WithCancel(bg)
+			default:
+				ctx, cancel = context.WithTimeout(bg, 300*time.Microsecond)
+			}
+			id := newID()
+			res := make(chan error, 1)
+			go func() { res <- lim.Acquire(ctx) }()
+			if k%3 == 1 {
+				time.Sleep(100 * time.Microsecond)
+				cancel()
+			}
+			early := false
+			select {
+			case err := <-res: // came back although every permit is taken
+				early = true
+				e, m := errClass(err)
+				step(freeStep{Op: "acq", I: id, Err: e, CR: lim.ConcurrentRequests(), Msg: m})
+				if e == "nil" {
+					held = append(held, id)
+				}
+			case <-time.After(2 * time.Millisecond):
+			}
+			if !early {
+				h := held[0]
+				held = held[1:]
+				lim.Release()
+				var err error
+				select {
+				case err = <-res:
+				case <-time.After(3 * time.Second):
+					obs.Stuck = fmt.Sprintf("queued caller %d did not get the permit that was released", id)
+				}
+				if obs.Stuck == "" {
+					e, m := errClass(err)
+					step(freeStep{Op: "rel", I: h, CR: -1})
+					step(freeStep{Op: "acq", I: id, Err: e, CR: lim.ConcurrentRequests(), Msg: m})
+					if e == "nil" {
+						held = append(held, id)
+					}
+				}
+			}
+			cancel()
+		}
 	default:
 		return fmt.Errorf("c17: unknown free mode %q", c.Mode)
 	}
@@ -530,7 +621,7 @@ func runFree(c *c17Case, out *json.Encoder) error {
 	// (with a longer timeout a free slot wins at once; a full channel would make every try
 	// last the whole timeout, so those get one try under a 100ms watchdog)
 	maxTries := 400
-	if c.TimeoutNs > 1000 {
+	if c.TimeoutNs > 1000 || c.TimeoutNs <= 0 {
 		maxTries = 1
 	}
 	for obs.FreshTries < maxTries && !obs.FreshOK {
